@@ -1068,6 +1068,7 @@ def run(ctx):
             items.append((case, inp, exp))
     run_large(ctx)
     run_audit(ctx, dims)
+    run_upload_midwrite(ctx, dims)
     run_bigdir(ctx, dims)
     ctx.extra["input_dimensions"] = dict(sorted(dims.items()))
     ctx.obligation("oracle:rehash-every-object-after-every-step",
@@ -1267,6 +1268,67 @@ LARGE = [
              {"op": "migrate", "src": 1, "dst": 2},
              {"op": "transfer", "src": 2, "dst": 0, "ids": [], "shallow": True, "verify": True, "all_ids": True}]},
 ]
+
+
+def run_upload_midwrite(ctx, dims):
+    """build(upload=True) while a writer rewrites one file between the hashing pass and the upload pass (imposed by a
+    LocalFileSystem whose open() rewrites the victim before its N-th open), then transfer staging -> store: every
+    object that ends up in the staging store or the destination is named by the MD5 of ITS bytes (the uploaded
+    snapshot is named by what was streamed, not by the earlier hashing pass).  Oracle only; the model's upload is the
+    fault-free one."""
+    from dvc_objects.fs.local import LocalFileSystem
+
+    from dvc_data.hashfile.build import build
+    from dvc_data.hashfile.transfer import transfer
+
+    for cls in ("local", "base"):
+        for nth in (1, 2, 3):
+            root = ctx.fresh("c01-midwrite")
+            ws = os.path.join(root, "ws")
+            os.makedirs(os.path.join(ws, "sub"))
+            contents = {"a": b"first-a", "sub/b": b"victim-before", "c": b"first-c"}
+            for k, v in contents.items():
+                with open(os.path.join(ws, *k.split("/")), "wb") as f:
+                    f.write(v)
+            victim = os.path.join(ws, "sub", "b")
+
+            class RewritingFS(LocalFileSystem):
+                seen = 0
+
+                def open(self, path, mode="rb", **kw):
+                    if os.path.abspath(path) == victim and "r" in mode:
+                        type(self).seen += 1
+                        if type(self).seen == nth:
+                            with open(victim, "wb") as f:   # noqa: PTH123
+                                f.write(b"victim-AFTER-rewrite!")
+                    return super().open(path, mode, **kw)
+
+            odb = impl.local_odb(os.path.join(root, "odb")) if cls == "local" else impl.base_odb(os.path.join(root, "odb"))
+            case = {"stream": "upload-midwrite", "store_class": cls, "rewrite_before_open": nth, "oracle_only": True}
+            try:
+                staging, _m, obj = build(odb, ws, RewritingFS(), "md5", upload=True)
+                transfer(staging, odb, {obj.hash_info}, shallow=False, hardlink=False)
+            except Exception as exc:  # noqa: BLE001
+                ctx.count("upload-midwrite:raised:" + type(exc).__name__)
+            bad = []
+            for d, _sub, files in os.walk(root):
+                if os.path.abspath(d).startswith(os.path.abspath(ws)):
+                    continue
+                for fn_ in files:
+                    fp = os.path.join(d, fn_)
+                    par = os.path.basename(d)
+                    if len(par) == 2 and len(fn_.replace(".dir", "")) == 30 and all(ch in "0123456789abcdef" for ch in par + fn_.replace(".dir", "")):
+                        with open(fp, "rb") as f:
+                            data = f.read()
+                        if hashlib.md5(data).hexdigest() != (par + fn_).replace(".dir", ""):
+                            bad.append((os.path.relpath(fp, root), data[:40]))
+            ctx.case(case, True)
+            ctx.count("stream:upload-midwrite")
+            dims["fault:writer-between-hashing-and-upload-pass"] = dims.get("fault:writer-between-hashing-and-upload-pass", 0) + 1
+            if bad:
+                ctx.oracle_fail("C01:misnamed-object:upload-after-concurrent-rewrite",
+                                f"build(upload=True) on a {cls} store with the file rewritten before open #{nth}: "
+                                f"objects not named by their bytes: {bad[:3]!r}", case)
 
 
 def run_large(ctx):
